@@ -483,12 +483,19 @@ def gen_cases(ctx):
   # SC08b (last again): record VALUES that are containers whose shape meets the packing conventions of the operators
   yield from counted(G.value_shape_cases(mk_case), 'value-shape')
 
+  def rand_vs(n):
+    for _ in range(n):
+      specs, items = G.gen_value_shape_chain(rng)
+      if specs:
+        yield mk_case(specs, items, ignore=rng.random() < 0.2, tag='value-shape:random')
+  yield from counted(rand_vs(400 if quick else 8000), 'value-shape-random')
+
 
 REQUIRED = {
     'operator': ['select', 'apply', 'assign', 'filter', 'batch', 'sink', 'aggregate', 'apply+batch', 'select+batch', 'assign+batch'],
     'key_shape': ['single', 'kwargs', 'tuple0', 'tuple1', 'tuple2', 'tuple3', 'bare-name', 'index', 'path-1', 'path-nested',
                   'path-with-index', 'dict-output-key', 'SELF', 'SKIP', 'LIT'],
-    'class': ['systematic', 'typed', 'wild', 'threads', 'nested-assign', 'builder', 'reserved-names', 'value-shape'],
+    'class': ['systematic', 'typed', 'wild', 'threads', 'nested-assign', 'builder', 'reserved-names', 'value-shape', 'value-shape-random'],
     'value_shape': G.vs_required(),
     'arm': [f'{op}: {what} key with the plain name {s!r}' for s in ('SELF', 'SKIP')
             for op, what in (('select', 'input'), ('select', 'output'), ('apply', 'input'), ('apply', 'output'),
